@@ -13,11 +13,17 @@ packets minus dropped TimeSensitive ones (`C05_emit_order`).
 
 ## Ideal schedules — the GENERAL form is proved
 
-`Ideal w W b a m ops` (`idealB`, a Boolean that can be evaluated) restricts only the `deliver` steps of
-the schedule `ops` run from `initS w W b a m`:
+`Ideal w W b a m ops` (`idealB`, a Boolean that can be evaluated) restricts the `deliver` steps of
+the schedule `ops` run from `initS w W b a m`, and excludes `resync` steps:
 * the `deliver` steps of `ops` are `deliver 0, deliver 1, deliver 2, …` in this order — every datagram
   is handed over at most once, in network (= emission) order, none is skipped;
-* a `deliver k` step is taken only when datagram `k` exists (`k < net.length` at that moment).
+* a `deliver k` step is taken only when datagram `k` exists (`k < net.length` at that moment);
+* `ops` contains no `resync` step (`Sys.NoResync`). The `Sys` network does not order sync frames
+  relative to datagrams, so a `resync` step may overtake the datagrams emitted before its sync value
+  was recorded and make the receive window pass Unreliable packets that are still in flight — which
+  an ideal (FIFO) network never does: there a sync frame arrives after every datagram sent before it,
+  all packets it covers are completely received, and `resynchronize` is a no-op. Ideal schedules are
+  therefore kept `resync`-free (the sender-side `sync` steps are allowed and harmless).
 The delay between emission and delivery is arbitrary (any number of other steps in between), and the
 steps `enq`, `emit`, `recv` and `ack` are interleaved ARBITRARILY: in particular acknowledgements may
 be lost, duplicated, reordered and delayed (`ack k` for any recorded receiver base, any number of
@@ -48,7 +54,8 @@ open Uflow Uflow.Gen Uflow.Codec Uflow.PSend Uflow.PRecv Uflow.Frag Uflow.Sys
 
 /-- Boolean checker: `ops`, run from `initS w W b a m`, is the schedule of a FIFO, lossless-so-far,
 duplication-free network (`Sys.idealFrom`, `Uflow/Lemmas/SysIdealDefs.lean`). -/
-def idealB (w W b a m : Nat) (ops : List SOp) : Bool := idealFrom (initS w W b a m) 0 ops
+def idealB (w W b a m : Nat) (ops : List SOp) : Bool :=
+  idealFrom (initS w W b a m) 0 ops && noResyncB ops
 
 /-- `ops` is an ideal schedule for the system started with `PacketSender::new(w, b, a)` and
 `PacketReceiver::new(W, b, m)`. -/
@@ -63,18 +70,22 @@ def settled (ops : List SOp) : Bool := settledFrom true ops
 /-- **What `Ideal` means.** A schedule is ideal iff for every `deliver k` step in it that the run
 reaches, `k` is the number of `deliver` steps before it (so the `deliver` steps are
 `deliver 0, deliver 1, …`: network order, no repeats, no gaps) and datagram `k` is in the network at
-that moment. Nothing is required of the other steps. -/
+that moment, and it contains no `resync` step. Nothing is required of the other steps (`enq`, `emit`,
+`recv`, `ack`, `sync`). For schedules without `resync` steps this is the characterisation that held
+before `Sys` had sync frames. -/
 theorem C05_sys_ideal_spec (w W b a m : Nat) (ops : List SOp) :
     Ideal w W b a m ops ↔
-      ∀ pre k post s1, ops = pre ++ .deliver k :: post → runS (initS w W b a m) pre = .ok s1 →
-        k = delivers pre ∧ k < s1.net.length := by
+      (∀ pre k post s1, ops = pre ++ .deliver k :: post → runS (initS w W b a m) pre = .ok s1 →
+        k = delivers pre ∧ k < s1.net.length) ∧ NoResync ops := by
   unfold Ideal idealB
-  rw [idealFrom_iff]
+  rw [Bool.and_eq_true, idealFrom_iff, noResyncB_iff]
   constructor
-  · intro h pre k post s1 h1 h2
+  · intro ⟨h, hn⟩
+    refine ⟨fun pre k post s1 h1 h2 => ?_, hn⟩
     have := h pre k post s1 h1 h2
     omega
-  · intro h pre k post s1 h1 h2
+  · intro ⟨h, hn⟩
+    refine ⟨fun pre k post s1 h1 h2 => ?_, hn⟩
     have := h pre k post s1 h1 h2
     omega
 
@@ -88,7 +99,10 @@ theorem C05_sys_ideal_reach (w k b a m : Nat) (hw : w ≤ 2^16) (hk : k ≤ 19) 
     (ham : allocCeil a ≤ allocCeil m) (ops : List SOp) (hid : Ideal w (2^k) b a m ops) (s' : Sys)
     (h : runS (initS w (2^k) b a m) ops = .ok s') :
     IdealSt b w (2^k) (allocCeil m) (allocCeil a) s' (delivers ops) (settled ops) := by
-  have := idealSt_run (wOk_pow k hk) hw hwk ham ops (idealSt_init w (2^k) b a m (Nat.two_pow_pos k) hb) hid h
+  unfold Ideal idealB at hid
+  rw [Bool.and_eq_true, noResyncB_iff] at hid
+  have := idealSt_run (wOk_pow k hk) hw hwk ham ops (idealSt_init w (2^k) b a m (Nat.two_pow_pos k) hb) hid.1
+    hid.2 h
   rw [Nat.zero_add] at this
   exact this
 
